@@ -99,3 +99,24 @@ func returnResponse(ctx context.Context, res any, err error, c chan<- any, logge
 		c <- err
 	}
 }
+
+// runSandboxNoResp runs f in the calling goroutine and converts a panic into an
+// error, same as runSandbox does. It is meant for plugin calls that already run
+// in a goroutine of their own and only return an error (i.e. Run): there is no
+// caller waiting for a response that could detach from the plugin.
+func runSandboxNoResp[REQ any](
+	f func(context.Context, REQ) error,
+	ctx context.Context, //nolint:revive // same parameter order as runSandbox
+	req REQ,
+) (err error) {
+	defer func() {
+		if r := recover(); r != nil {
+			var ok bool
+			err, ok = r.(error)
+			if !ok {
+				err = cerrors.Errorf("panic: %v", r)
+			}
+		}
+	}()
+	return f(ctx, req)
+}
